@@ -1,0 +1,35 @@
+//go:build verif
+
+// Verification hooks: exported aliases of unexported functions, compiled only with -tags verif.
+package extendeddaemonsetreplicaset
+
+import (
+	"github.com/go-logr/logr"
+	corev1 "k8s.io/api/core/v1"
+	"k8s.io/apimachinery/pkg/runtime"
+	generator "k8s.io/kube-state-metrics/v2/pkg/metric_generator"
+	"sigs.k8s.io/controller-runtime/pkg/client"
+
+	datadoghqv1alpha1 "github.com/DataDog/extendeddaemonset/api/v1alpha1"
+	"github.com/DataDog/extendeddaemonset/controllers/extendeddaemonsetreplicaset/strategy"
+)
+
+// VerifCreatePods exposes createPods.
+func VerifCreatePods(logger logr.Logger, c client.Client, scheme *runtime.Scheme, podAffinitySupported bool, replicaset *datadoghqv1alpha1.ExtendedDaemonSetReplicaSet, podsToCreate []*strategy.NodeItem) []error {
+	return createPods(logger, c, scheme, podAffinitySupported, replicaset, podsToCreate)
+}
+
+// VerifDeletePods exposes deletePods.
+func VerifDeletePods(logger logr.Logger, c client.Client, podByNodeName map[*strategy.NodeItem]*corev1.Pod, nodes []*strategy.NodeItem) []error {
+	return deletePods(logger, c, podByNodeName, nodes)
+}
+
+// VerifGenerateMetricFamilies exposes generateMetricFamilies.
+func VerifGenerateMetricFamilies() []generator.FamilyGenerator {
+	return generateMetricFamilies()
+}
+
+// VerifRetrieveReplicaSetStatus exposes retrieveReplicaSetStatus.
+func VerifRetrieveReplicaSetStatus(daemonset *datadoghqv1alpha1.ExtendedDaemonSet, replicassetName string) strategy.ReplicaSetStatus {
+	return retrieveReplicaSetStatus(daemonset, replicassetName)
+}
